@@ -66,7 +66,15 @@ def serialize_value(value: Any) -> Any:
         else:
             return [serialize_value(val) for val in value]
     elif hasattr(value, '__call__'):
-        return {'callable': '.'.join((value.__module__, value.__name__))}
+        identifier = '.'.join((value.__module__, value.__name__))
+        try:
+            resolvable = get_object(identifier) is value
+        except (AttributeError, ImportError):
+            resolvable = False
+        if not resolvable:
+            raise ValueError(f'cannot serialize {value!r}: {identifier}'
+                             ' does not refer to it')
+        return {'callable': identifier}
     else:
         raise ValueError(f'cannot serialize {value!r} to dict format')
 
